@@ -209,12 +209,6 @@ func ruleR01f(h *H, rule string) {
 	}
 	tn := wt.Obj().Name()
 	flush := ir.Callee{Pkg: "server/wal", Recv: "ReadWriteSegment", Name: "Flush"}
-	resetters := map[string]string{
-		"(*server/wal." + tn + ").TruncateLog": "truncation sets both offsets to the truncation point",
-		"(*server/wal." + tn + ").Clear":       "clear resets the log",
-		"(*server/wal." + tn + ").recoverWal":  "recovery: everything read back from disk is on disk",
-		"server/wal.newWal":                    "constructor",
-	}
 	ws := h.P.FieldWrites("server/wal", tn, "lastSyncedOffset")
 	if len(ws) == 0 {
 		h.Anchor(rule, tn+".lastSyncedOffset writers")
@@ -227,8 +221,16 @@ func ruleR01f(h *H, rule string) {
 			h.Unknown(rule, name, h.pos(w.Instr), "address of lastSyncedOffset escapes")
 			continue
 		}
-		if reason, ok := resetters[fnName]; ok {
-			h.OK(rule, name, h.pos(w.Instr), "log re-initialisation: "+reason)
+		// (re)initialisation of the log (truncate / clear / recovery): the same value is
+		// stored into lastAppendedOffset in the same function
+		reinit := false
+		for _, a := range h.P.FieldWrites("server/wal", tn, "lastAppendedOffset") {
+			if a.Fn == w.Fn && a.Val != nil && w.Val != nil && (ir.SameExpr(a.Val, w.Val) || sameConst(a.Val, w.Val)) {
+				reinit = true
+			}
+		}
+		if reinit {
+			h.OK(rule, name, h.pos(w.Instr), "log (re)initialisation: appended and synced offsets are set to the same value")
 			continue
 		}
 		flushes := h.P.CallsIn(w.Fn, flush)
@@ -457,4 +459,10 @@ func checkNoTruncateReturns(h *H, rule string, f *ssa.Function) {
 	if n == 0 {
 		h.Note("%s never returns its EntryId parameter unchanged", ir.FuncName(f))
 	}
+}
+
+func sameConst(a, b ssa.Value) bool {
+	ca, ok1 := ir.Canon(a).(*ssa.Const)
+	cb, ok2 := ir.Canon(b).(*ssa.Const)
+	return ok1 && ok2 && ca.Value != nil && cb.Value != nil && ca.Value.ExactString() == cb.Value.ExactString()
 }
